@@ -51,7 +51,7 @@ def run(tier, seed):
         "traces_validated_against_impl": len(jobs) + len(ejobs),
         "samples": [kast.render(asts[0]), kast.render(asts[1])],
         "evaluations": len(jobs) + len(ejobs), "distinct_nontrivial": len(decided),
-        "rule": "12 positions (let, for argument, function argument, return, yield, match arm, typed catch; let with several targets: hinted ignored or named target over a list, a bare tuple and a call result; for with several arguments) x 21 hint names (Any, "
+        "rule": "13 positions (let, for argument, function argument, return, yield, match arm, typed catch; let with several targets: hinted ignored or named target over a list, a bare tuple and a call result; for with several arguments, one of them a hinted ignored argument) x 21 hint names (Any, "
                 "Callable, Indexable, Iterable, builtin names, user @type names Foo/Bar/Baz, ? variants) x 19 values (every kind, "
                 "objects with @type and @base chains of depth <= 2, an object inheriting its type from its base): %d programs%s, each "
                 "predicted and run with enable_type_checks on and off; ordinary programs compiled with checks off" % (len(list(gen_hints.programs())), " (1500 sampled)" if quick else ""),
